@@ -4,6 +4,8 @@ Gen/Win.lean:
   hierarchyKinds     the enumerators of HierarchyChangeType, in order (the model's `WinTree.Change` mirrors them)
   flagHidden …       the bits of TickitWindowFlags the harness and the model decode
   outsideCap         capacity of `TickitRect outside[N]` in _scrollrectset (must hold what tickit_rect_subtract returns)
+  linecapStart/End   TICKIT_LINECAP_START / _END of include/tickit.h (the `caps` argument of hline_at / vline_at, which the
+                     handler programs of the harness pass as a number and `WinRB.lineCalls` decodes)
 and, in the evidence only, whether the statement order of _do_expose / tickit_window_flush / _scroll /
 tickit_window_expose is the one the model transcribes.
 """
@@ -33,6 +35,15 @@ def run(ctx):
             info["untranslatable"].append("flag:TICKIT_WINDOW_" + name); flags[name] = 0
     for k, v in flags.items():
         body += "def flag%s : Nat := %d\n" % ("".join(p.capitalize() for p in k.split("_")), v)
+    caps = {}
+    for name in ("START", "END"):
+        mm = re.search(r"TICKIT_LINECAP_" + name + r"\s*=\s*(0x[0-9a-fA-F]+|\d+)", hdr)
+        if mm:
+            caps[name] = int(mm.group(1), 0)
+        else:
+            info["untranslatable"].append("enum:TICKIT_LINECAP_" + name); caps[name] = 0
+    for k, v in caps.items():
+        body += "def linecap%s : Nat := %d\n" % (k.capitalize(), v)
     cap = array_cap(win, r"TickitRect\s+outside\s*\[\s*(\d+)\s*\]", "cap:scroll_outside")
     body += "def outsideCap : Nat := %d\n" % (cap if cap is not None else 0)
 
@@ -86,4 +97,4 @@ def run(ctx):
     # harmless reordering must not become an alarm; behaviour is tied by the correspondence check).
     body += "end Tickit.Gen.Win\n"
     write("Win", body)
-    info["win"] = {"hierarchyKinds": kinds, "flags": flags, "outsideCap": cap, "facts": facts}
+    info["win"] = {"hierarchyKinds": kinds, "flags": flags, "linecaps": caps, "outsideCap": cap, "facts": facts}
